@@ -208,8 +208,9 @@ def run(ctx: Ctx):
             ctx.check(var is not None and kw.get(fld) == var, "CONV-1", f, rets[0], f"returned {fld} is the last iteration's own", f"{fld}={kw.get(fld)}",
                       f"returned `{fld}` is `{kw.get(fld)}`, not the variable `{var}` of the evaluation/improvement just checked")
     pin, newpin = env.get("pi"), env.get("newpi")
-    upd = [n for n in lp.body if isinstance(n, ast.Assign) and isinstance(n.targets[0], ast.Name) and n.targets[0].id == pin]
-    ok = bool(upd) and newpin in names_in(upd[0].value)
+    # every assignment to the policy inside the loop (after the improvement; directly or in the arms of a conditional) reads the improved policy
+    upd = [n for n in ast.walk(lp) if isinstance(n, ast.Assign) and isinstance(n.targets[0], ast.Name) and n.targets[0].id == pin]
+    ok = bool(upd) and all(newpin in names_in(u.value) for u in upd)
     ctx.check(ok, "CONV-1", f, upd[0] if upd else lp, "policy advances to the improved policy", "", "policy is not advanced to the improved policy")
     # ---- wrapper
     w = P.method("EntropyRegularizedPolicyIteration", "plan_on")
